@@ -127,18 +127,18 @@ def gen_cases(tier, spec):
     for c in corpus_cases():
         cases.append({'line': c, 'origin': 'corpus', 'feats': []})
     # generated statements over the harness schema
-    n_gen = int((1500 if thorough else 220) * SCALE)
+    n_gen = int((1000 if thorough else 220) * SCALE)
     for i in range(n_gen):
         txt, feats, npar = G.gen_statement(rnd)
         mode = 'n' if i % 3 else 'j'
         cases.append({'line': enc_case('g1', mode, txt), 'origin': 'generated', 'feats': feats})
     # server-compiler slice (constant extraction -> extra parameters, QueryUnit descriptors)
-    n_srv = int((300 if thorough else 40) * SCALE)
+    n_srv = int((200 if thorough else 40) * SCALE)
     for i in range(n_srv):
         txt, feats, npar = G.gen_statement(rnd, maxdepth=rnd.choice([2, 3, 3, 4]))
         cases.append({'line': enc_case('g1', 's', txt), 'origin': 'generated-server', 'feats': feats})
     # malformed / edge stream
-    n_bad = int((120 if thorough else 24) * SCALE)
+    n_bad = int((80 if thorough else 24) * SCALE)
     for i in range(n_bad):
         txt, feats, npar = G.gen_statement(rnd, malformed=True)
         cases.append({'line': enc_case('g1', 'n', txt), 'origin': 'malformed', 'feats': feats})
@@ -146,8 +146,8 @@ def gen_cases(tier, spec):
     have = {k + '.esdl' for k in spec['schemas'] if k != 'g1'}
     seeds = G.upstream_seeds(lib.REPO, have) if have else []
     rnd.shuffle(seeds)
-    n_seed = int((1200 if thorough else 130) * SCALE)
-    n_rec = int((800 if thorough else 90) * SCALE)
+    n_seed = int((800 if thorough else 130) * SCALE)
+    n_rec = int((500 if thorough else 90) * SCALE)
     for s in seeds[:n_seed]:
         cases.append({'line': enc_case(s[0][:-5], rnd.choice('nnj'), s[3]), 'origin': 'upstream-seed',
                       'feats': ['seed:' + s[1]]})
@@ -534,7 +534,7 @@ def run(tier):
     seeds_probe = ('12345', '7') if thorough else ('12345',)
     cand = [i for i, r in enumerate(impl) if r.get('st') == 'ok']
     rnd = lib.rng('C13probe')
-    nprobe = min(len(cand), int((700 if thorough else 80) * SCALE))
+    nprobe = min(len(cand), int((400 if thorough else 80) * SCALE))
     probe = sorted(rnd.sample(cand, nprobe)) if cand else []
     d_idx = sorted(set(need_d) | set(probe))
     d_lines = [lines[i] for i in d_idx]
